@@ -7,10 +7,10 @@ from .. import land
 LEVEL = 'exploration'
 ENGINE = 'SEQ'
 TECHNIQUE = 'exhaustive product of (persistent class, state at restart, number of consecutive restarts, results pipe, restart arguments) executed as operation histories on real workers and checked against a reference model of a fresh worker'
-LEVEL_TEXT = ('every combination of the bounded product is run on real workers: 3 classes x 13 states at restart (never used, dying on its own, finished but lingering, results unread, large results unread, inputs queued, closed, died by exception, killed, uncooperative, cooperative with a slow clean-up, killed with a parked forwarder, killed with a slow consumer) x 1-3 restarts x default/supplied results pipe x restart arguments; oracle: live worker, same name/userid/target/defaults, new identity for process/remote kinds, old child gone, the new stream yields exactly the post-restart results in order, result counts post-restart enqueues, raises (and keeps the old child) when the old incarnation cannot be stopped')
+LEVEL_TEXT = ('every combination of the bounded product is run on real workers: 3 classes x 14 states at restart (never used, dying on its own, finished but lingering, uncooperative and ignoring SIGTERM, results unread, large results unread, inputs queued, closed, died by exception, killed, uncooperative, cooperative with a slow clean-up, killed with a parked forwarder, killed with a slow consumer) x 1-3 restarts x default/supplied results pipe x restart arguments; oracle: live worker, same name/userid/target/defaults, new identity for process/remote kinds, old child gone, the new stream yields exactly the post-restart results in order, result counts post-restart enqueues, raises (and keeps the old child) when the old incarnation cannot be stopped')
 LEVEL_NOTE = 'the state alphabet is finite and hand-picked from the statement; timing inside a state (how far the old child got) is whatever the OS does, the oracle does not depend on it'
 
-STATES = ['fresh', 'unread', 'big-unread', 'queued', 'closed', 'died', 'dying', 'lingering', 'killed', 'stubborn', 'slow-unwind', 'killed+parked', 'killed+slow-consumer']
+STATES = ['fresh', 'unread', 'big-unread', 'queued', 'closed', 'died', 'dying', 'lingering', 'stubborn-sigign', 'killed', 'stubborn', 'slow-unwind', 'killed+parked', 'killed+slow-consumer']
 
 
 def prep(state, kind, tmp):
@@ -28,6 +28,8 @@ def prep(state, kind, tmp):
         return [E('old1'), {'op': 'call', 'var': 'w', 'method': 'close'}]
     if state == 'died':
         return [E('old1'), E('POISON'), {'op': 'sleep', 's': 0.4}]
+    if state == 'stubborn-sigign':
+        return [E('STUBBORN-SIGIGN'), {'op': 'sleep', 's': 0.3}]
     if state == 'lingering':
         # the work is over and reported, the child process does not go away (a thread left behind by the target keeps it)
         return [E('LINGER'), {'op': 'call', 'var': 'w', 'method': 'close'}, {'op': 'sleep', 's': 0.4}]
@@ -50,6 +52,8 @@ def scripts(quick):
         for state in STATES:
             if state in ('killed', 'killed+parked', 'lingering') and kind == 'PT':
                 continue
+            if state == 'stubborn-sigign' and kind != 'PP':
+                continue      # a thread cannot be killed; the server side of the remote kind stops at SIGTERM
             if state == 'killed+slow-consumer' and kind != 'PR':
                 continue
             for pipe in ('default', 'supplied'):
@@ -60,6 +64,8 @@ def scripts(quick):
                 for rargs in ('default', 'timeout', 'noforce', 'zero'):
                     if rargs == 'zero' and state not in ('stubborn', 'queued', 'fresh', 'slow-unwind'):
                         continue      # timeout=0 ("do not wait at all"), force=False
+                    if state == 'stubborn-sigign' and rargs != 'timeout':
+                        continue      # with force (the default) the last resort SIGKILL ends it: a good restart is expected
                     if state == 'lingering' and (rargs != 'timeout' or kind == 'PR'):
                         continue      # default: waits for ever; without force (and on the parent side of the remote kind) the child stays
                     if state == 'slow-unwind' and rargs not in ('noforce', 'zero'):
@@ -75,7 +81,7 @@ def scripts(quick):
                     if state == 'big-unread' and (rargs == 'default' or (kind in ('PT', 'PR') and rargs != 'noforce')):
                         continue      # nobody reads the full pipe: waiting for ever is the documented behaviour; force kills the caller
                     for nres in ((1, 2) if quick else (1, 2, 3)):
-                        if nres > 1 and state in ('stubborn', 'killed+parked', 'big-unread', 'killed+slow-consumer', 'slow-unwind', 'lingering'):
+                        if nres > 1 and state in ('stubborn', 'killed+parked', 'big-unread', 'killed+slow-consumer', 'slow-unwind', 'lingering', 'stubborn-sigign'):
                             continue
                         target = 'slow_echo'
                         kw = {}
